@@ -116,9 +116,7 @@ def run(ch: Checker) -> None:
             for x in ast.walk(hv):
                 if isinstance(x, ast.DictComp):
                     comp = x
-        if comp is None:
-            res['headers'] = 'headers are not rebuilt by a comprehension over self.headers'
-        else:
+        if comp is not None:
             gen = comp.generators[0]
             k = norm(gen.target)
             if norm(gen.iter) not in ('self.headers', 'self.headers.keys()'):
@@ -139,6 +137,15 @@ def run(ch: Checker) -> None:
             conds = [norm(c_) for c_ in gen.ifs]
             if conds != ['%s.lower() not in disable_headers' % k]:
                 res['filter'] = 'headers are filtered by %s (only `name.lower() not in disable_headers` may drop a header)' % conds
+        else:
+            # loop form: a dict filled inside `for ... in self.headers[.items()]` on this path
+            r2 = _loop_form_headers(g, p, sym, hv, last[0])
+            if r2 is None:
+                if not (hv is not None and norm(hv) in ('{}',) and dict(p.facts()).get('self.headers') is False):
+                    res['headers'] = 'headers handed to the builder (%s) are neither a comprehension over self.headers nor a dict filled in a loop over it' % (norm(hv)[:60] if hv is not None else 'missing')
+            else:
+                for kk, vv in r2.items():
+                    res[kk] = vv
     for key, what in (('line', 'method and version'), ('path', 'origin-form path'), ('hname', 'header names'), ('hvalue', 'header values'), ('filter', 'header filter')):
         msg = res.get(key) or res.get('call') or res.get('headers')
         ch.check(msg is None and n > 0, 'C02.2', b, what, '%s preserved by build()' % what, msg or 'no path')
@@ -223,3 +230,65 @@ def run(ch: Checker) -> None:
     # ---------------- C02.6
     pipeline_reset_check(ch, 'C02.6')
     chunk_decoder_checks(ch, 'C02.7', 'C02.7', 'C02.7')
+
+
+def _loop_form_headers(g: Any, p: Any, sym: Sym, hv: Optional[ast.AST], ridx: int) -> Optional[Dict[str, str]]:
+    """headers built by `for k[, (name, value)] in self.headers[.items()]: ... D[name] = value` (one iteration on this path)"""
+    if not isinstance(hv, (ast.Name, ast.Dict)) and hv is not None and not isinstance(hv, ast.Call):
+        pass
+    out: Dict[str, str] = {}
+    loops = [(i, nid) for i, (nid, lab) in enumerate(p.steps) if g.nodes[nid].kind == 'for' and lab == 'iter'
+             and norm(g.nodes[nid].ast.iter) in ('self.headers', 'self.headers.items()', 'self.headers.keys()')]
+    if not loops:
+        # zero iterations on this path: is there such a loop in the function at all?
+        any_loop = any(nd.kind == 'for' and norm(nd.ast.iter) in ('self.headers', 'self.headers.items()', 'self.headers.keys()') for nd in g.nodes)
+        return {} if any_loop else None
+    i0, nid0 = loops[0]
+    loop = g.nodes[nid0].ast
+    items = norm(loop.iter).endswith('.items()')
+    it = '__iter__(%s)' % norm(loop.iter)
+    kname = it + '[0]' if items else it
+    orig_name = ['%s[1][0]' % it, 'self.headers[%s][0]' % kname] if items else ['self.headers[%s][0]' % kname]
+    orig_val = ['%s[1][1]' % it, 'self.headers[%s][1]' % kname] if items else ['self.headers[%s][1]' % kname]
+    # end of this iteration = next visit of the loop node
+    end = len(p.steps)
+    for j in range(i0 + 1, len(p.steps)):
+        if p.steps[j][0] == nid0:
+            end = j
+            break
+    stores = []
+    for j in range(i0 + 1, end):
+        nd = g.nodes[p.steps[j][0]]
+        if nd.kind == 'stmt' and isinstance(nd.ast, ast.Assign) and isinstance(nd.ast.targets[0], ast.Subscript) and isinstance(nd.ast.targets[0].value, ast.Name):
+            stores.append((j, nd.ast))
+    facts = {}
+    from ..cfg import atom_key
+    for j in range(i0 + 1, end):
+        nd = g.nodes[p.steps[j][0]]
+        if nd.kind == 'test' and p.steps[j][1] in (True, False):
+            e = sym.value(nd.ast, j)
+            k2, pol = atom_key(e, p.steps[j][1])
+            facts[k2] = pol
+    disabled = [v for k2, v in facts.items() if k2.replace(' ', '') in ('%s.lower()indisable_headers' % kname.replace(' ', ''),
+                                                                      '%s.lower()inDEFAULT_DISABLE_HEADERS' % kname.replace(' ', ''))]
+    if not stores:
+        if not (disabled and disabled[-1] is True):
+            out['filter'] = 'a header is dropped on a path that did not establish `name.lower() in disable_headers` (conditions: %s)' % list(facts.items())
+        return out
+    if disabled and disabled[-1] is True:
+        out['filter'] = 'a disabled header is emitted'
+    j, st = stores[-1]
+    key = norm(sym.value(st.targets[0].slice, j))
+    val = norm(sym.value(st.value, j))
+    if key not in orig_name:
+        out['hname'] = 'header names are rebuilt as %s, not the original spelling' % key[:70]
+    if val in orig_val:
+        pass
+    elif val == 'host':
+        host_given = facts.get('host is None') is False
+        is_host = any(v is True and k2.endswith(".lower() == b'host'") for k2, v in facts.items())
+        if not (host_given and is_host):
+            out['hvalue'] = 'a header value is replaced by the host override on a path that did not establish `host is not None` and `<name>.lower() == b\'host\'`'
+    else:
+        out['hvalue'] = 'header values are rebuilt as %s, not the original value' % val[:70]
+    return out
